@@ -24,6 +24,9 @@ import (
 type keyField struct {
 	Path []string // e.g. ["owner","id"]
 	Kind string   // GraphQL scalar name of the leaf: ID | String | Int
+	// NonNull: the leaf (or a parent on its path) is declared non-null, so a null there is not a
+	// value of the key but a malformed representation
+	NonNull bool
 }
 
 type keyModel struct {
@@ -125,6 +128,7 @@ func buildModel(s *ast.Schema, computed bool) (*schemaModel, error) {
 				cur := def
 				kind := ""
 				goName := ""
+				nonNull := false
 				for _, seg := range p {
 					fd := cur.Fields.ForName(seg)
 					if fd == nil {
@@ -132,9 +136,12 @@ func buildModel(s *ast.Schema, computed bool) (*schemaModel, error) {
 					}
 					goName += templates.ToGo(seg)
 					kind = fd.Type.Name()
+					if fd.Type.NonNull {
+						nonNull = true
+					}
 					cur = s.Types[kind]
 				}
-				km.Fields = append(km.Fields, keyField{Path: p, Kind: kind})
+				km.Fields = append(km.Fields, keyField{Path: p, Kind: kind, NonNull: nonNull})
 				goNames = append(goNames, goName)
 			}
 			rn := "find"
@@ -308,7 +315,9 @@ func (m *schemaModel) route(rep map[string]any) route {
 			}
 			if cur != nil {
 				allNull = false
-			} else {
+			} else if f.NonNull {
+				// null where the schema says non-null: what the resolver receives is not defined by
+				// the property; a null on a nullable key field is an ordinary key value
 				anyNull = true
 			}
 			vals = append(vals, c)
